@@ -4,6 +4,7 @@ driver runs against the implementation) and concludes a predicate of Spec.lean (
 evaluates on what the implementation returned). Helper lemmas: Lemmas.lean.
 -/
 import Otel.C09.Lemmas
+import Otel.C09.DescLemmas
 set_option exponentiation.threshold 2100
 namespace Otel.C09
 open Otel
@@ -562,5 +563,31 @@ def start_params_ok_statement : Prop :=
     let o := startParams kind name cfg nLinks dec sa
     Spec.startParamsOK kind name cfg nLinks dec sa o.seenName o.seenKind o.seenAttrs o.seenLinks o.recording o.spanKind
       o.attrs = true
+
+/-! ## Sampler.Description() -/
+
+/-- **the description determines the sampler**: two stock samplers (AlwaysSample, NeverSample, TraceIDRatioBased,
+ParentBased with any combination of its four options, nested to any depth) with the same Description() have the same
+structure — same constructor at every position, same rendered ratio at every TraceIDRatioBased leaf. (`wf`: a `%g`
+rendering contains no `}`.) In particular no two different ParentBased option combinations print the same text. -/
+theorem description_determines_sampler (a b : DS) (ha : a.wf = true) (hb : b.wf = true)
+    (h : describe a = describe b) : a = b :=
+  (describe_prefix_free a b [] [] ha hb (by simpa using h)).1
+
+/-- which text TraceIDRatioBased prints: `fraction >= 1` is AlwaysSample (its description, not a ratio's), `fraction <= 0`
+prints 0, NaN and everything in between print the fraction as rendered -/
+theorem description_of_ratio (bits : UInt64) (g : List Char) :
+    describe (ratioDS bits g) =
+      if geOne bits then litA else if leZero bits then litR ++ ['0', '}'] else litR ++ (g ++ ['}']) := by
+  unfold ratioDS
+  by_cases h1 : geOne bits = true
+  · simp [h1, describe]
+  · by_cases h2 : leZero bits = true <;> simp [h1, h2, describe]
+
+/-- non-vacuity: two ParentBased samplers that differ in one option print different texts -/
+example : describe (.pb .always .never .never .always .never) ≠ describe (.pb .always .always .never .always .never) :=
+  fun h => absurd (description_determines_sampler _ _ rfl rfl h) (by decide)
+
+example : describe (ratioDS 0x3FE0000000000000 ['0', '.', '5']) = litR ++ ['0', '.', '5', '}'] := by decide
 
 end Otel.C09
